@@ -119,16 +119,25 @@ def run(ck):
             if ev["res"] == "value":
                 ck.nontrivial((term_io.term_key(ev["f"]), tuple(term_io.term_key(a[2]) for a in asg)))
             evs.append(ev)
+    from harness import bigvals
+    big = bigvals.events(ck, (max(e["id"] for e in evs) + 1) if evs else 0, quick)
+    evs += big
+    ck.part("huge_constants", events=len(big), ints=len(bigvals.INTS), rationals=len(bigvals.RATS))
     verdicts, st = tlc.validate_events("Trace_Pure", evs, constants={"Seed": ck.seed % 1000, "Cap": 64})
     ck.add_tlc(st)
     byid = {e["id"]: e for e in evs}
     for i, fails in verdicts.items():
         e = byid[i]
+        if e["kind"] == "bigarith":
+            for cl in fails:
+                ck.violation({"kind": "bigarith", "clause": cl, "sort": e["sort"], "op": e["op"], "exc": e["exc"].split(":")[0]}, {"event": e})
+            continue
         for cl in fails:
             ck.violation({"kind": "getvalue", "clause": cl, "shape": shape(e["f"]), "exc": e["exc"],
                           "completion": e["completion"], "total": all(e["present"])}, {"event": e})
     ck.part("cases", operator_table_cases=len(cases), partial_or_no_completion=n_partial, compositions=picked)
-    for e in (evs[0], evs[len(evs) // 3], evs[-1]):
+    gvs = [e for e in evs if e["kind"] == "getvalue"]
+    for e in (gvs[0], gvs[len(gvs) // 3], gvs[-1]):
         ck.sample({"f": e["f"], "asg": [(a["n"], a["v"]) for a in e["asg"]], "present": e["present"],
                    "completion": e["completion"], "res": e["res"], "out": e["out"]})
     ck.cov["exhaustive"] = True
